@@ -32,7 +32,7 @@ func init() {
 				if c.Tier == "thorough" {
 					return int64(len(c.Corpus.Valid)) * 250
 				}
-				return int64(len(c.Corpus.Valid)) * 6
+				return int64(len(c.Corpus.Valid)) * 30
 			},
 			Plan: planC04,
 			Exec: execC04,
@@ -75,6 +75,17 @@ func planC04(c *Ctx, run int64) *Plan {
 		o := genEdit(r, 0)
 		id++
 		o.ID = id
+		p.Ops = append(p.Ops, o)
+	}
+	if Chance(r, 0.2) {
+		// every regime × addon pairing: replace the addon list (calculation may fail; then the run is trivial)
+		o := next("edit")
+		o.S, o.S2 = "addons", Pick(r, allAddons(c.Repo))
+		p.Ops = append(p.Ops, o)
+	}
+	if Chance(r, 0.1) {
+		o := next("edit")
+		o.S, o.S2 = "pricesinclude", "VAT"
 		p.Ops = append(p.Ops, o)
 	}
 	p.Ops = append(p.Ops, next("calc"))
